@@ -1516,8 +1516,13 @@ func (n *node) RouteNodeDown(name gen.Atom, reason error) {
 	// Send exit messages for link targets that were cleaned up
 	for target, linkConsumers := range linkTargetsWithConsumers {
 		var message any
+		// the sender of the exit signal. an actor does not trap the exit signal
+		// of its parent, so it must not be the core for a linked process (the
+		// processes started by the node itself have the core as their parent)
+		from := n.corePID
 		switch t := target.(type) {
 		case gen.PID:
+			from = t
 			message = gen.MessageExitPID{
 				PID:    t,
 				Reason: gen.ErrNoConnection,
@@ -1553,7 +1558,7 @@ func (n *node) RouteNodeDown(name gen.Atom, reason error) {
 
 		// Send exit messages to all consumers
 		for _, pid := range linkConsumers {
-			n.sendExitMessage(n.corePID, pid, message)
+			n.sendExitMessage(from, pid, message)
 		}
 	}
 
